@@ -101,3 +101,23 @@ Theorem C16_fuel_vol_delta_def :
     = rsum ne vols - (if sym then (fb + res) / 2 else fb + res) / rho.
 Proof. exact fuel_vol_delta_def. Qed.
 Print Assumptions C16_fuel_vol_delta_def.
+
+(* the areas the mass and the fuel volume are built from, for a rectangular wing-box section (SectionPropertiesWingbox):
+   material area = two skins over the full width + two spars between the skins; internal area = width times the height
+   between the skins minus both spars *)
+From OAS Require Import Wingbox WingboxProofs.
+Theorem C16_wingbox_material_area_of_a_box :
+  forall x0 x1 yu yl toc0 chord spar skin toc sw : R, chord <> 0 -> toc0 <> 0 ->
+    let bx := fun i : nat => match i with O => x0 | _ => x1 end in
+    let w := chord * (x1 - x0) in let h := chord * (toc / toc0 * sw / chord) * (yu - yl) in
+    wb_A 1 bx (fun _ => yu) bx (fun _ => yl) toc0 chord spar skin toc sw 0 = 2 * skin * w + 2 * (h - 2 * skin) * spar.
+Proof. exact box_area. Qed.
+Print Assumptions C16_wingbox_material_area_of_a_box.
+
+Theorem C16_wingbox_internal_area_of_a_box :
+  forall x0 x1 yu yl toc0 chord spar skin toc sw : R, chord <> 0 -> toc0 <> 0 ->
+    let bx := fun i : nat => match i with O => x0 | _ => x1 end in
+    let w := chord * (x1 - x0) in let h := chord * (toc / toc0 * sw / chord) * (yu - yl) in
+    wb_A_int 1 bx (fun _ => yu) bx (fun _ => yl) toc0 chord spar skin toc sw = w * (h - 2 * skin) - 2 * h * spar.
+Proof. exact box_internal_area. Qed.
+Print Assumptions C16_wingbox_internal_area_of_a_box.
